@@ -45,7 +45,7 @@ def _one(eng, n, gen, mode, src: SV, st: St):
         guard = eng.dict_has(st, src, x)
         sq = st.copy()
         key = eng.read_typed(sq, x, kt)
-        val = eng.read_typed(sq, eng.dict_val(sq, src, x), vt)
+        val = eng.dict_read(sq, src, x, vt)
         elem = key if mode in ("plain", "keys") else (val if mode == "values" else (key, val))
         bound = x
     elif sty.k in ("list", "tuple", "vtuple"):
@@ -54,7 +54,7 @@ def _one(eng, n, gen, mode, src: SV, st: St):
         j = fresh("cj", IntS)
         guard = z3.And(0 <= j, j < eng.list_len(st, src))
         sq = st.copy()
-        elem = eng.read_typed(sq, eng.list_get(sq, src, j), eng.elem_type(sty))
+        elem = eng.list_read(sq, src, j, eng.elem_type(sty))
         bound = j
     else:
         raise Unsupported(f"comprehension over {src.ty}")
